@@ -130,7 +130,7 @@ fn parse_quoted_item(ctx: &mut Tokenizer) -> MoltResult {
                 item.push(ctx.backslash_subst());
                 start = ctx.mark();
             }
-            _ => unreachable!(),
+            _ => break,
         }
     }
 
@@ -185,6 +185,7 @@ pub fn list_to_string(list: &[Value]) -> String {
             }
             Mode::Brace => {
                 vec.push(brace_item(&item));
+                hash = false;
             }
             Mode::Escape => {
                 vec.push(escape_item(hash, &item));
@@ -221,7 +222,7 @@ fn escape_item(hash: bool, item: &str) -> String {
         }
 
         match ch {
-            '{' | ';' | '$' | '[' | ']' | '\\' => {
+            '{' | '}' | ';' | '$' | '[' | ']' | '\\' | '"' => {
                 word.push('\\');
                 word.push(ch);
             }
@@ -246,37 +247,50 @@ fn get_mode(word: &str) -> Mode {
     }
 
     // NEXT, inspect the content.
-    let mut mode = Mode::AsIs;
-    let mut brace_count = 0;
+    let mut needs_quoting = false;
+    let mut brace_safe = true;
+    let mut depth: usize = 0;
 
-    let mut iter = word.chars().peekable();
+    let mut iter = word.chars();
 
     while let Some(ch) = iter.next() {
         if ch.is_whitespace() {
-            mode = Mode::Brace;
+            needs_quoting = true;
             continue;
         }
         match ch {
-            ';' | '$' | '[' | ']' => {
-                mode = Mode::Brace;
+            ';' | '$' | '[' | ']' | '"' => needs_quoting = true,
+            '{' => {
+                needs_quoting = true;
+                depth += 1;
             }
-            '{' => brace_count += 1,
-            '}' => brace_count -= 1,
-            '\\' => {
-                if iter.peek() == Some(&'\n') {
-                    return Mode::Escape;
+            '}' => {
+                needs_quoting = true;
+                if depth == 0 {
+                    brace_safe = false;
                 } else {
-                    mode = Mode::Brace;
+                    depth -= 1;
+                }
+            }
+            '\\' => {
+                needs_quoting = true;
+                // The list and script parsers both skip the character following a
+                // backslash inside braces.
+                match iter.next() {
+                    None | Some('\n') => brace_safe = false,
+                    Some(_) => (),
                 }
             }
             _ => (),
         }
     }
 
-    if brace_count != 0 {
-        Mode::Escape
+    if !needs_quoting {
+        Mode::AsIs
+    } else if brace_safe && depth == 0 {
+        Mode::Brace
     } else {
-        mode
+        Mode::Escape
     }
 }
 
